@@ -188,6 +188,20 @@ def analyse(fn, facts, E, is_prim_call, keys_by_sig):
                         tgt = lp[0]
                         srcs = [path(t_) for t_ in ts if isinstance(t_, dict)]
                         prior = [x for x in accs.get(tgt, []) if x[0] < order[id(n)] and x[1] in ("+=", "initcall", "=")]
+                        # `sum = total; ..sum grows..; total = sum;` hands the old total through the carrier (std::accumulate with
+                        # the running total as its initial value): nothing is lost
+                        carried = False
+                        for sp_ in srcs:
+                            if not (sp_ and len(sp_) == 1):
+                                continue
+                            for d_ in ir.walk(fn["body"]):
+                                if d_.get("k") == "Decl":
+                                    for v_ in d_.get("vars", []):
+                                        if "n" in v_ and "l:%s#%s" % (v_["n"], v_["id"]) == sp_[0] and v_.get("init") is not None and \
+                                                any(isinstance(t2, dict) and path(t2) == lp for t2 in _terms(v_["init"])) and order[id(d_)] < order[id(n)]:
+                                            carried = True
+                        if carried:
+                            prior = []
                         if prior and id(n) not in overwritten:
                             overwritten.add(id(n))
                             sites.append(Site(fn, n, False, "plain assignment overwrites accumulator %s which already holds emitted byte counts "
